@@ -166,7 +166,7 @@ func monC05(c *Ctx, r *SsoRun) {
 	// what was persisted is what was signed
 	_, ok := r.creates()
 	if len(ok) == 1 && f.SigRequired && validForBinding {
-		if ok[0].Args[2] != r.Case["relay"] {
+		if ok[0].Args[2] != r.RelayActedOn {
 			c.issue(Issue{Kind: "violation", What: "persisted RelayState differs from the signed one", Site: "ssoHandleFunc", Class: "relay-mismatch", Detail: r.detail()})
 		}
 	}
@@ -236,7 +236,7 @@ func conformantSso(r *SsoRun) bool {
 	if !(f.RequestNonEmpty && f.KnownEncoding && f.Decodes && f.IssuerPresent && f.IssuerRegistered && f.IDSet && f.VersionSet && f.DestinationOK && f.TimeOK) {
 		return false
 	}
-	if cs["issuer"] != "registered" || cs["transport"] == "post-both" || cs["acsurl"] != "absent" {
+	if cs["issuer"] != "registered" || cs["transport"] == "post-both" || cs["transport"] == "post-query-replay" || cs["acsurl"] != "absent" {
 		return false
 	}
 	// transport encoding per binding
